@@ -97,6 +97,7 @@ class Contract:
         self.returns = returns          # T of the result, for use at call sites
         self.lemmas = lemmas
         self.region = region
+        self.region_name = "region"
         self.setup = setup
         self.may_raise = may_raise
         self.hooks = hooks or {}     # name -> fn(S, st): ghost code run right after an assignment to that name
@@ -239,6 +240,27 @@ class Engine:
             st.assume(n >= 0)
             get = self.fresh_elemfn(et, base, st)
             return st.alloc(HSeq(n, get, numpy=(k == "arr"), etype=et))
+        if k == "arr2":
+            et = t.args[0]
+            nr = z3.Int(fresh_name(base + ".rows"))
+            nc = z3.Int(fresh_name(base + ".cols"))
+            st.assume(z3.And(nr >= 0, nc >= 0))
+            nm = fresh_name(base + ".at2")
+            if et.kind == "float":
+                fv = z3.Function(nm, z3.IntSort(), z3.IntSort(), z3.RealSort())
+                fn_ = z3.Function(nm + ".nan", z3.IntSort(), z3.IntSort(), z3.BoolSort())
+                fi = z3.Function(nm + ".inf", z3.IntSort(), z3.IntSort(), z3.BoolSort())
+                fp = z3.Function(nm + ".pos", z3.IntSort(), z3.IntSort(), z3.BoolSort())
+                get = lambda i, j: VFloat(fv(i, j), fn_(i, j), fi(i, j), fp(i, j))
+            elif et.kind == "real":
+                fv = z3.Function(nm, z3.IntSort(), z3.IntSort(), z3.RealSort())
+                get = lambda i, j: VFloat(fv(i, j))
+            elif et.kind == "int":
+                fv = z3.Function(nm, z3.IntSort(), z3.IntSort(), z3.IntSort())
+                get = lambda i, j: VInt(fv(i, j))
+            else:
+                raise Unsupported("fresh 2-D array of %r" % (et,))
+            return st.alloc(H2D(nr, nc, get, etype=et))
         raise Unsupported("fresh(%r)" % (t,))
 
     def fresh_elemfn(self, et, base, st):
@@ -313,6 +335,15 @@ class Engine:
             return
         if z3.is_true(goal):
             goal = z3.BoolVal(True)
+        # conjunctions are split into one obligation per conjunct (smaller, more stable queries)
+        if z3.is_and(goal) and goal.num_args() > 1 and kind in ("ensures", "invariant", "lemma"):
+            for idx_, g in enumerate(goal.children()):
+                self.oblige(st, "%s [%d/%d]" % (name, idx_ + 1, goal.num_args()), g, kind, node, clause or name)
+            return
+        if z3.is_implies(goal) and z3.is_and(goal.arg(1)) and goal.arg(1).num_args() > 1 and kind in ("ensures", "invariant", "lemma"):
+            for idx_, g in enumerate(goal.arg(1).children()):
+                self.oblige(st, "%s [%d/%d]" % (name, idx_ + 1, goal.arg(1).num_args()), z3.Implies(goal.arg(0), g), kind, node, clause or name)
+            return
         line = getattr(node, "lineno", 0) if node is not None else 0
         nm = "%s/%s@%s#%d" % (self.cur_fn, name, line, len(self.obligations))
         self.obligations.append(Obligation(nm, kind, st.cond(), goal, self.cur_fn, line, clause or name))
@@ -413,6 +444,8 @@ class Engine:
                 raise Unsupported("attribute %s of %s" % (node.attr, o.cls))
             if isinstance(o, HSeq) and node.attr == "shape":
                 return VTuple([VInt(o.len)])
+            if isinstance(o, H2D) and node.attr == "shape":
+                return VTuple([VInt(o.rows), VInt(o.cols)])
             if isinstance(o, HSeq) and node.attr == "T":
                 return base
             return VConc("method:" + node.attr, (base,))
@@ -558,6 +591,10 @@ class Engine:
             o = st.heap[cont.addr]
             if isinstance(o, HDict):
                 return o.has(self.key_term(item))
+            if isinstance(o, HSeq) and isinstance(item, (VFloat,)):
+                from .models import any_of
+                g = o.get
+                return any_of(self, o.len, lambda q: self.py_eq(g(q), item, st), "infl")
             if isinstance(o, HSeq):
                 # membership as an uninterpreted predicate of the item (sound under binders):
                 #   MEM(x) => c[W(x)] == x in range ;  forall k in range. MEM(c[k])
@@ -628,6 +665,8 @@ class Engine:
         if isinstance(a, VNone) or isinstance(b, VNone):
             self.oblige(st, "operand of arithmetic is not None", z3.BoolVal(False), "safety", node)
             raise PathEnd()
+        if isinstance(a, VBool) and isinstance(b, VBool) and isinstance(op, (ast.BitOr, ast.BitAnd)):
+            return VBool(z3.Or(a.t, b.t) if isinstance(op, ast.BitOr) else z3.And(a.t, b.t))
         if isinstance(a, (VInt, VBool)) and isinstance(b, (VInt, VBool)):
             x, y = self.as_int(a), self.as_int(b)
             if isinstance(op, ast.Add):
@@ -737,6 +776,8 @@ class Engine:
             return st.alloc(HSeq(0, lambda k: VInt(0), numpy=numpy, note="empty"))
 
         def get(k, items=items):
+            if z3.is_int_value(k) and 0 <= k.as_long() < len(items):
+                return items[k.as_long()]
             r = items[-1]
             for i in range(len(items) - 2, -1, -1):
                 r = ite(k == i, items[i], r)
@@ -779,6 +820,8 @@ class Engine:
                 kt = self.key_term(key)
                 self.oblige(st, "key is present in dict (no KeyError)", o.has(kt), "safety", node)
                 return o.val(kt)
+            if isinstance(o, H2D):
+                return self.models["subscript2d"](self, st, base, sl, node)
             if isinstance(o, HSeq):
                 if isinstance(sl, ast.Tuple):
                     return self.models["subscript2d"](self, st, base, sl, node)
@@ -792,6 +835,9 @@ class Engine:
                     self.oblige(st, "index is not None", z3.BoolVal(False), "safety", node)
                     raise PathEnd()
                 it = self.as_int(idx)
+                if getattr(idx, "nonneg", False):
+                    self.oblige(st, "index in range", it < o.len, "safety", node)
+                    return o.get(it)
                 self.oblige(st, "index in range", z3.And(it >= -o.len, it < o.len), "safety", node)
                 if z3.is_int_value(it) and it.as_long() >= 0:
                     return o.get(it)
@@ -1055,6 +1101,8 @@ class Engine:
                 n.keys = st.alloc(newkeys)
             st.heap[base.addr] = n
             return
+        if isinstance(o, H2D):
+            return self.models["store2d"](self, st, base, sl, v, node)
         if isinstance(o, HSeq):
             if isinstance(sl, ast.Slice):
                 return self.models["store_slice"](self, st, base, sl, v, node)
@@ -1289,7 +1337,13 @@ class Engine:
                     if n in names:
                         raise Unsupported("cannot havoc %s (type unknown)" % n)
                     continue
-            if isinstance(v, VRef) and n in heapmut and n not in names:
+            if isinstance(v, VRef) and n in heapmut and n not in names and isinstance(st.heap[v.addr], H2D):
+                nv = self.fresh(t, "%s!%s" % (n, tag), st)
+                new = st.heap[nv.addr]
+                old = st.heap[v.addr]
+                new.rows, new.cols = old.rows, old.cols
+                st.heap[v.addr] = new
+            elif isinstance(v, VRef) and n in heapmut and n not in names:
                 # same object, new contents
                 nv = self.fresh(t, "%s!%s" % (n, tag), st)
                 st.heap[v.addr] = st.heap[nv.addr]
@@ -1308,8 +1362,13 @@ class Engine:
         # normalise the iterable to (length, element function)
         if isinstance(it, VConc) and it.name == "range":
             lo, hi = it.obj
-            n = z3.If(hi > lo, hi - lo, 0)
-            elem = lambda k: VInt(lo + k)
+            n = z3.If(hi > lo, hi - lo, 0) if self.feasible(st, hi < lo) else (hi - lo)
+            nn = z3.is_int_value(lo) and lo.as_long() >= 0
+
+            def elem(k):
+                v = VInt(z3.simplify(lo + k))
+                v.nonneg = nn
+                return v
         elif isinstance(it, VConc) and it.name == "enumerate":
             o = st.heap[it.obj[0].addr]
             n = o.len
@@ -1346,6 +1405,7 @@ class Engine:
         S0 = Spec(self, st)
         idx = "__i%d" % ordn
         st.env[idx] = VInt(0)
+        st.env["__i"] = VInt(0)
         st.env["__n%d" % ordn] = VInt(n)
         for nm, c in spec.invariant(S0, st):
             self.oblige(st, "loop %d invariant initially: %s" % (ordn, nm), c, "invariant", node, nm)
@@ -1355,9 +1415,10 @@ class Engine:
             names = set(spec.modifies) | tnames
         # --- arbitrary iteration
         s1 = st.fork()
-        self.havoc(s1, (names | tnames) - {idx}, heapmut, spec, "L%d" % ordn)
+        self.havoc(s1, (names | tnames) - {idx, "__i"}, heapmut, spec, "L%d" % ordn)
         i = z3.Int(fresh_name("i!L%d" % ordn))
         s1.env[idx] = VInt(i)
+        s1.env["__i"] = VInt(i)
         s1.assume(z3.And(0 <= i, i < n))
         for nm, c in spec.invariant(Spec(self, s1), s1):
             s1.assume(c)
@@ -1365,6 +1426,7 @@ class Engine:
 
         def end_iter(s):
             s.env[idx] = VInt(i + 1)
+            s.env["__i"] = VInt(i + 1)
             for nm, c in spec.invariant(Spec(self, s), s):
                 self.oblige(s, "loop %d invariant preserved: %s" % (ordn, nm), c, "invariant", node, nm)
             self.paths += 1
@@ -1376,8 +1438,9 @@ class Engine:
             self.ex_block(node.body, s1, K1)
         # --- after the loop (ran to completion)
         s2 = st.fork()
-        self.havoc(s2, (names | tnames) - {idx}, heapmut, spec, "X%d" % ordn)
+        self.havoc(s2, (names | tnames) - {idx, "__i"}, heapmut, spec, "X%d" % ordn)
         s2.env[idx] = VInt(n)
+        s2.env["__i"] = VInt(n)
         for nm, c in spec.invariant(Spec(self, s2), s2):
             s2.assume(c)
         # the loop target keeps its last value (or stays unbound when n == 0): mark conditionally unbound
@@ -1451,14 +1514,18 @@ class Engine:
         """Generate all obligations of one function against its contract."""
         fnode = self.find_function(qual)
         self.cur = contract
-        self.cur_fn = qual
+        self.cur_fn = qual if not contract.region else "%s[%s]" % (qual, contract.region_name)
         self.number_loops(fnode)
+        if contract.region:
+            body = contract.region(fnode)
+            if not body:
+                raise Unsupported("region %s of %s not found" % (contract.region_name, qual))
         st = State(self)
         n0 = len(self.obligations)
         p0 = self.paths
         args = {}
         defaults = fnode.args.defaults
-        pnames = [a.arg for a in fnode.args.args]
+        pnames = [a.arg for a in fnode.args.args] if not contract.region else list(contract.params.keys())
         for nm in pnames:
             if nm == "self" and nm not in contract.params:
                 continue
@@ -1499,6 +1566,9 @@ class Engine:
 
         K = {"next": lambda s: on_ret(s, VNone()), "ret": on_ret, "exc": on_exc,
              "brk": lambda s: None, "cont": lambda s: None}
+        if contract.region:
+            K["cont"] = lambda s: on_ret(s, VConc("continue"))
+            K["brk"] = lambda s: on_ret(s, VConc("break"))
         stmts = body if body is not None else fnode.body
         self.ex_block(stmts, st, K)
         obs = self.obligations[n0:]
